@@ -27,20 +27,61 @@ CORPUS = [
 ]
 
 
+def judge(a, s):
+    """does the implementation trace `a` agree with the definition's trace `s`?"""
+    if s.endswith("END unspecified"):
+        k = s.count("|")
+        return a.split("|")[:k - 1] == s.split("|")[:k - 1]
+    return a == s
+
+
+def safe_render(p):
+    try: return render_prog(p)
+    except ValueError: return None      # area trees the grammar cannot write (library-level programs only)
+
+
+def shrink(prog, stdin, cap, budget=160):
+    """greedy minimisation of a failing (program, stdin): drop commands, then input characters, while the
+    implementation still disagrees with the definition"""
+    def bad(p, i):
+        if not p: return False
+        c = "one %s %s %d" % (enc_prog(p), enc_text(i), cap)
+        a = impl_exec([c])[0]; s = model_exec([c], spec=True)[0]
+        return (not unjudged(a, s)) and not judge(a, s)
+    used = 0; changed = True
+    while changed and used < budget:
+        changed = False
+        for k in range(len(prog) - 1, -1, -1):
+            q = prog[:k] + prog[k + 1:]
+            used += 1
+            if used > budget: break
+            if bad(q, stdin):
+                prog = q; changed = True
+        for k in range(len(stdin) - 1, -1, -1):
+            j = stdin[:k] + stdin[k + 1:]
+            used += 1
+            if used > budget: break
+            if bad(prog, j):
+                stdin = j; changed = True
+    return prog, stdin
+
+
 def main(tier, seed):
     rep = Report("C01", tier, seed)
     rng = random.Random(seed)
     if standard_build(rep, "C01"):
         n = 2500 if tier == "quick" else 60000
         cases = ["one %s %s 400" % (p, enc_text(i)) for p, i in CORPUS]
+        srcs = [None] * len(cases)
         for k in range(n):
-            p = rand_prog(rng, grammar=(k % 3 != 0))
-            cases.append("one %s %s %d" % (enc_prog(p), enc_text(rand_stdin(rng)), 400 if k % 10 else 2000))
+            p = rand_prog(rng, grammar=(k % 3 != 0)); i = rand_stdin(rng); cap = 400 if k % 10 else 2000
+            cases.append("one %s %s %d" % (enc_prog(p), enc_text(i), cap)); srcs.append((p, i, cap))
         impl = impl_exec(cases)
         model = model_exec(cases)
         spec = model_exec(cases, spec=True)
         feats = {"jumps_taken": 0, "input_read": 0, "ends": {}, "steps_total": 0, "max_steps": 0, "with_output": 0, "with_err": 0, "labels": 0, "return_heart_pending": 0}
-        for c, a, m, s in zip(cases, impl, model, spec):
+        nshrunk = 0
+        for c, a, m, s, src in zip(cases, impl, model, spec, srcs):
             if unjudged(a, m, s):
                 rep.count("skipped-resource-limit"); continue
             rep.count("execute_one-traces")
@@ -62,7 +103,13 @@ def main(tier, seed):
             else:
                 ok_spec = (a == s)
             if not ok_spec:
-                rep.violation("impl-vs-spec", {"case": c, "impl": a[:1500], "model": m[:1500], "spec": s[:1500], "match_key": c})
+                v = {"case": c, "impl": a[:1500], "model": m[:1500], "spec": s[:1500], "match_key": c}
+                if src is not None and nshrunk < 3:
+                    nshrunk += 1
+                    sp, si = shrink(src[0], src[1], src[2])
+                    mc = "one %s %s %d" % (enc_prog(sp), enc_text(si), src[2])
+                    v["minimised"] = {"case": mc, "source": safe_render(sp), "stdin": si, "impl": impl_exec([mc])[0][:800], "definition": model_exec([mc], spec=True)[0][:800]}
+                rep.violation("impl-vs-spec", v)
             elif a != m:
                 rep.violation("correspondence", {"what": "impl trace differs from the model trace (spec does not decide)", "case": c, "impl": a[:1500], "model": m[:1500]})
             if not unspecified and m != s:
